@@ -7,7 +7,7 @@ B  K-diff of the expression kernel on parser-shaped trees (norm e of the C22 enu
    printer = pr e, real re-parse = model re-parse = e itself (exact, parentheses included).
 C  direct oracle on whole files: parse(format.Source(src)) ~ parse(src), reflection dump ignoring positions,
    comments, resolution data, import order inside one declaration, doubled parentheses and the parentheses
-   around a whole if/for/switch condition (which the printer strips deliberately); on the repository's XGo and
+   around a whole if/for/switch condition or range operand (which the printer strips deliberately); on the repository's XGo and
    class files, a comment inserted before every token of the small files, and seeded generated sources.
 """
 from checks import g6fmt, c22
@@ -24,7 +24,7 @@ CLAIM = {
     "note": "Kernel theorem + explored remainder.  That the printed text scans back to the model's tokens is covered by the table obligation "
             "C19_mayCombine_covers_prefix_operators (regenerated mayCombine x regenerated token spellings) and by the deterministic "
             "token-adjacency family (every operator x every prefix operator, normal and compact contexts).  The structural comparison ignores positions, comments, resolution data, the order of "
-            "import specs inside one declaration, doubled parentheses and parentheses around a whole if/for/switch condition.  "
+            "import specs inside one declaration, doubled parentheses and parentheses around a whole if/for/switch condition or range operand.  "
             "Trusted: Coq kernel, extraction, translator, harness.",
 }
 
